@@ -257,7 +257,7 @@ func verifySubprotocol(subprotos []string, resp *http.Response) error {
 	}
 
 	for _, sp2 := range subprotos {
-		if strings.EqualFold(sp2, proto) {
+		if asciiEqualFold(sp2, proto) {
 			return nil
 		}
 	}
